@@ -523,3 +523,36 @@ def check_C13(tier):
                 seen[k] = (d, rec['obs']['fresh_answer'])
             seen.setdefault(k, (d, rec['obs']['fresh_answer']))
     return rep.finish()
+
+
+@reg
+def check_C14(tier):
+    rep = Report('C14', tier)
+    env = Env()
+    conf = extract_conf(env)
+    # value part: equality, hash, order, string comparison for pairs (incl. same-string Sids of different types)
+    core_family(rep, env, conf, 'eqlaws', tier, 'C14 value part: pairs of Sids (natural and forced types, junk) - ==, hash, <, sorted, == str')
+    # history part: operation sequences on a population of handles
+    r = mc('SidHeap', 'SidHeap_%s.cfg' % tier, conf, dump=True)
+    rep.add_tlc(r, 'SidHeap: all operation sequences up to the depth of SidHeap_%s.cfg (Frozen, EqualIffSameUri)' % tier)
+    if r.violation:
+        rep.fail('spec-invariant', 'TLC: ' + K._tlc_error(r.out), record=dict(tlc_tail=r.out[-2000:]))
+        return rep.finish()
+    K.tlc_ok(r, 'SidHeap')
+    hists = calls_from_dump(r.dumpfile, var='hist')
+    depth = max(len(h) for h in hists)
+    behaviours = [h for h in hists if len(h) == depth]
+    rnd = random.Random(SEED)
+    if tier == 'quick' and len(behaviours) > 1500:
+        behaviours = rnd.sample(behaviours, 1500)
+    rs, sims = _sim_behaviours('SidHeap', 'SidHeap_gen.cfg', conf, 100 if tier == 'quick' else 1000, 13)
+    rep.add_tlc(rs, 'random operation sequences of 12 steps (-simulate)')
+    behaviours += [h for h in sims if h]
+    calls = [dict(id=i, steps=h) for i, h in enumerate(behaviours)]
+    K.code_to_spec(rep, env, conf, calls, 'every sequence replayed on real Sids; every handle snapshotted and every returned container damaged after every operation',
+                   module='ImmutTrace', script='run_immut.py', tag='immut', per=100, chunk=8000, split_on='"ireset"')
+    rep.exhaustive = True
+    rep.notes['behaviours'] = len(behaviours)
+    rep.guard(len([t for t in rep.cover if t.startswith('op:')]) >= 15 or not calls, 'fewer than 15 operations exercised')
+    rep.assumptions = ['public Sid API only (fields, get_as, parent, get_with, copy, path, /, ==, hash, sort ...); private attributes are read, never written, by the harness']
+    return rep.finish()
